@@ -23,7 +23,7 @@ import (
 )
 
 var checks = map[string]func(*core.Ctx){
-	"C01": sched.Run,
+	"C01": func(c *core.Ctx) { sched.Run(c); qevent.RunGroupClause(c) },
 	"C02": sched.Run,
 	"C03": sched.Run,
 	"C04": reqsim.Run,
